@@ -97,6 +97,8 @@ class Ctx:
 
     def add(self, ob):
         self.obs.append(ob)
+        if os.environ.get("VERIF_VERBOSE"):
+            print("  [%7.2fs] %-9s %-55s %s %.2fs %s" % (time.time() - self.t0, ob.status, ob.name, ob.backend, ob.time_s, ob.detail[:80] if ob.status != "proved" else ""), flush=True)
         if len(self.samples) < 6 and ob.status == "proved" and not ob.bounded:
             self.samples.append(dict(obligation=ob.name, kind=ob.kind, backend=ob.backend,
                                      detail=ob.detail[:300]))
